@@ -850,6 +850,18 @@ staticassert(struct scope *s)
 	return true;
 }
 
+static unsigned long long
+bitfieldwidth(struct scope *s)
+{
+	unsigned long long width;
+
+	width = intconstexpr(s, false);
+	/* -1 means that the member is not a bit-field */
+	if (width == -1)
+		error(&tok.loc, "bit-field width is too large");
+	return width;
+}
+
 static void
 structdecl(struct scope *s, struct structbuilder *b)
 {
@@ -873,11 +885,11 @@ structdecl(struct scope *s, struct structbuilder *b)
 	}
 	for (;;) {
 		if (consume(TCOLON)) {
-			width = intconstexpr(s, false);
+			width = bitfieldwidth(s);
 			addmember(b, base, NULL, 0, width);
 		} else {
 			mt = declarator(s, base, &name, NULL, false);
-			width = consume(TCOLON) ? intconstexpr(s, false) : -1;
+			width = consume(TCOLON) ? bitfieldwidth(s) : -1;
 			addmember(b, mt, name, align, width);
 		}
 		if (tok.kind == TSEMICOLON)
